@@ -21,8 +21,9 @@ uint64_t vh_next(const char *kind);
 #define nondet_u64()    ((uint64_t)vh_next("u64"))
 #define nondet_size()   ((size_t)vh_next("size"))
 #define nondet_int()    ((int)vh_next("int"))
-#define CHECK(c, msg) do { if (!(c)) { printf("CHECK-FAILED %s (%s:%d)\n", msg, __FILE__, __LINE__); vh_failed = 1; } } while (0)
-#define ASSUME(c) do { if (!(c)) { printf("ASSUME-FALSE %s (%s:%d)\n", #c, __FILE__, __LINE__); exit(vh_failed ? 1 : 3); } } while (0)
+void vh_report(const char *kind, const char *msg, const char *file, int line);   /* raw write(2) syscall: harnesses may stub stdio */
+#define CHECK(c, msg) do { if (!(c)) { vh_report("CHECK-FAILED", msg, __FILE__, __LINE__); vh_failed = 1; } } while (0)
+#define ASSUME(c) do { if (!(c)) { vh_report("ASSUME-FALSE", #c, __FILE__, __LINE__); _Exit(vh_failed ? 101 : 3); } } while (0)
 #define WITNESS() do { } while (0)
 #define MUSTFAIL(c, msg) do { } while (0)
 #else
